@@ -40,11 +40,12 @@ from hypothesis import strategies as st  # noqa: E402
 @st.composite
 def large_history_case(draw):
     """Thresholds well above the usual handful, bursts of failures, exact window boundaries."""
-    thr = draw(st.sampled_from([64, 65, 66, 70, 100]))
+    thr = draw(st.sampled_from([64, 65, 66, 70, 100, 100, 1024, 1025, 1500]))
     spec = {"threshold": thr, "window": draw(st.sampled_from([4, 16, 64])), "recovery": 4, "trip_on": ["TRANSIENT", "SERVER_ERROR"]}
     if draw(st.booleans()):
-        spec["class_thresholds"] = {"TRANSIENT": draw(st.sampled_from([64, 65, 70]))}
-    burst = st.tuples(st.just("fail_n"), st.sampled_from(["TRANSIENT", "SERVER_ERROR"]), st.sampled_from([1, 10, 30, 62, 63, 64, 65, 70]))
+        spec["class_thresholds"] = {"TRANSIENT": draw(st.sampled_from([64, 65, 70] if thr <= 100 else [1025, 1400]))}
+    sizes = [1, 10, 30, 62, 63, 64, 65, 70] if thr <= 100 else [1, 500, 1023, 1024, 1025, 1500]
+    burst = st.tuples(st.just("fail_n"), st.sampled_from(["TRANSIENT", "SERVER_ERROR"]), st.sampled_from(sizes))
     ops = draw(
         st.lists(
             st.one_of(burst, burst, st.tuples(st.just("adv_win"), st.sampled_from([-1, 0, 0, 1])), st.tuples(st.just("adv_win_class"), st.just("TRANSIENT"), st.sampled_from([-1, 0, 1])),
